@@ -92,6 +92,7 @@ def bindings():
     ok = True
     okres = lambda e: e.get("res", {}).get("ok") and e["res"].get("elems") and isinstance(e["res"]["elems"][0], int)
     ok &= corrupt_and_validate("TraceOps(C03)", "TraceOps", g("C03", "*.events.0.ndjson"), None, bump_first(okres, ["res", "elems", 0]))
+    ok &= corrupt_and_validate("TraceOps(C03,size)", "TraceOps", g("C03", "*.events.0.ndjson"), None, bump_first(lambda e: e.get("res", {}).get("ok") and "size" in e["res"], ["res", "size"]))
     ok &= corrupt_and_validate("TraceOps(C05,shape)", "TraceOps", g("C05", "*.events.0.ndjson"), None, bump_first(lambda e: e.get("res", {}).get("ok") and e["res"].get("shape"), ["res", "shape", 0]))
     ok &= corrupt_and_validate("TraceLayout(step)", "TraceLayout", g("C01", "*.events.0.ndjson"), None, bump_first(lambda e: e.get("e") == "step" and e.get("idx"), ["idx", 0]))
     ok &= corrupt_and_validate("TraceLayout(removed step)", "TraceLayout", g("C01", "*.events.0.ndjson"), None, drop_event(lambda e: e.get("e") == "step" and e.get("k") == 1))
